@@ -42,7 +42,7 @@ def one(sid):
 
 
 bad = 0
-with ThreadPoolExecutor(14) as ex:
+with ThreadPoolExecutor(int(__import__("os").environ.get("KV_JOBS", "14"))) as ex:
     for sid, res in ex.map(one, ids):
         if res is None:
             continue
